@@ -254,7 +254,7 @@ func (x *Exec) sliceOp(s *State, f *Frame, in *ssa.Slice) (Value, bool) {
 				np = x.ite(nl, x.nilPtr(), np).(*PtrVal)
 			}
 		}
-		return &SliceVal{Ptr: np, Len: x.clampSub(hi, lo), Cap: x.clampSub(mx, lo)}, true
+		return &SliceVal{Ptr: np, Len: x.clampSubMax(hi, lo, capT.Hi), Cap: x.clampSubMax(mx, lo, capT.Hi)}, true
 	case *PtrVal:
 		// pointer to array
 		if !x.panicIf(s, x.ptrIsNil(b), "nil pointer dereference (slice of array)") {
@@ -278,7 +278,7 @@ func (x *Exec) sliceOp(s *State, f *Frame, in *ssa.Slice) (Value, bool) {
 		}
 		p0 := &PtrVal{Alts: []PtrAlt{{G: tb.True, Obj: a.Obj, Path: append(append([]int(nil), a.Path...), 0)}}}
 		np := x.offsetPtr(s, p0, lo, len(arr.E)+1)
-		return &SliceVal{Ptr: np, Len: x.clampSub(hi, lo), Cap: x.clampSub(mx, lo)}, true
+		return &SliceVal{Ptr: np, Len: x.clampSubMax(hi, lo, uint64(len(arr.E))), Cap: x.clampSubMax(mx, lo, uint64(len(arr.E)))}, true
 	}
 	x.fail("slice of %T", base)
 	return nil, false
@@ -536,6 +536,17 @@ func (x *Exec) typeAssert(s *State, f *Frame, in *ssa.TypeAssert) (Value, bool) 
 // clampSub returns hi-lo for checked bounds lo <= hi, with the range hi.Hi-lo.Lo recorded.
 func (x *Exec) clampSub(hi, lo *Term) *Term {
 	mx := hi.Hi
+	if lo.Lo <= mx {
+		mx -= lo.Lo
+	} else {
+		mx = 0
+	}
+	return x.tb.ClampU(x.tb.Sub(hi, lo), mx)
+}
+
+// clampSubMax is clampSub with the additional checked bound hi <= limit.
+func (x *Exec) clampSubMax(hi, lo *Term, limit uint64) *Term {
+	mx := min64(hi.Hi, limit)
 	if lo.Lo <= mx {
 		mx -= lo.Lo
 	} else {
